@@ -28,27 +28,27 @@ fn now<T>(f: impl std::future::Future<Output = T>) -> T {
 impl RandomAccess for Fwd {
     async fn write(&mut self, o: u64, d: &[u8]) -> Result<(), RandomAccessError> {
         let m = self.0.clone();
-        let mut g = m.lock().unwrap();
+        let mut g = m.lock().unwrap_or_else(|e| e.into_inner());
         now(g.write(o, d))
     }
     async fn read(&mut self, o: u64, l: u64) -> Result<Vec<u8>, RandomAccessError> {
         let m = self.0.clone();
-        let mut g = m.lock().unwrap();
+        let mut g = m.lock().unwrap_or_else(|e| e.into_inner());
         now(g.read(o, l))
     }
     async fn del(&mut self, o: u64, l: u64) -> Result<(), RandomAccessError> {
         let m = self.0.clone();
-        let mut g = m.lock().unwrap();
+        let mut g = m.lock().unwrap_or_else(|e| e.into_inner());
         now(g.del(o, l))
     }
     async fn truncate(&mut self, l: u64) -> Result<(), RandomAccessError> {
         let m = self.0.clone();
-        let mut g = m.lock().unwrap();
+        let mut g = m.lock().unwrap_or_else(|e| e.into_inner());
         now(g.truncate(l))
     }
     async fn len(&mut self) -> Result<u64, RandomAccessError> {
         let m = self.0.clone();
-        let mut g = m.lock().unwrap();
+        let mut g = m.lock().unwrap_or_else(|e| e.into_inner());
         now(g.len())
     }
     async fn is_empty(&mut self) -> Result<bool, RandomAccessError> {
@@ -93,9 +93,9 @@ impl Backend {
             }
         }
     }
-    async fn storage(&self) -> Result<Storage, String> {
+    async fn storage(&self, overwrite: bool) -> Result<Storage, String> {
         match self {
-            Backend::Journal(w) => Ok(env::storage_async(w).await),
+            Backend::Journal(w) => Ok(env::storage_async_ow(w, overwrite).await),
             Backend::Memory(mems) => {
                 let mems = mems.clone();
                 Storage::open(
@@ -103,12 +103,12 @@ impl Backend {
                         let m = mems[env::store_id(&s)].clone();
                         Box::pin(async move { Ok(Box::new(Fwd(m)) as Box<dyn StorageTraits + Send>) })
                     },
-                    false,
+                    overwrite,
                 )
                 .await
                 .map_err(|e| format!("{e}"))
             }
-            Backend::Disk(d) => Storage::new_disk(d, false).await.map_err(|e| format!("{e}")),
+            Backend::Disk(d) => Storage::new_disk(d, overwrite).await.map_err(|e| format!("{e}")),
         }
     }
     fn bytes(&self) -> Image {
@@ -117,7 +117,7 @@ impl Backend {
             Backend::Memory(mems) => {
                 let mut img = env::empty_image();
                 for (i, m) in mems.iter().enumerate() {
-                    let mut g = m.lock().unwrap();
+                    let mut g = m.lock().unwrap_or_else(|e| e.into_inner());
                     let l = now(g.len()).unwrap();
                     img[i] = now(g.read(0, l)).unwrap();
                 }
@@ -143,7 +143,11 @@ impl Drop for Backend {
 }
 
 async fn open_core(b: &Backend, create: Option<hypercore::PartialKeypair>, cache: CacheCfg) -> Result<Hypercore, String> {
-    let st = b.storage().await?;
+    open_core_ow(b, create, cache, false).await
+}
+
+async fn open_core_ow(b: &Backend, create: Option<hypercore::PartialKeypair>, cache: CacheCfg, overwrite: bool) -> Result<Hypercore, String> {
+    let st = b.storage(overwrite).await?;
     let bl = builder(st, cache);
     let bl = match create {
         Some(kp) => bl.key_pair(kp),
@@ -167,14 +171,43 @@ async fn observe_async(c: &mut Hypercore, upto: u64, t: &mut Vec<String>) {
 }
 
 /// Execute `hist` on fresh backends of `kind`; returns (transcript, writer files, replica files).
-async fn run_config(hist: &[Op], kind: BackendKind, cache: CacheCfg) -> (Vec<String>, Image, Option<Image>) {
+/// `pre`: writer operations of an earlier core (another key pair) that lived in the same storage
+/// before; the writer of `hist` is then created with `overwrite = true` over what it left behind.
+/// `cold`: every proof is requested, the replica is closed and opened again, and only then the
+/// proof is applied (an answer in flight across a restart).
+async fn run_config(hist: &[Op], kind: BackendKind, cache: CacheCfg, pre: &[Op], cold: bool) -> (Vec<String>, Image, Option<Image>) {
     let with_replica = hist.iter().any(|o| o.is_replica_op());
     let wb = Backend::new(kind);
     let rb = if with_replica { Some(Backend::new(kind)) } else { None };
     let kp = key_pair(KEY_SEED);
     let mut t: Vec<String> = vec![];
     let mut m = SysModel::new(with_replica);
-    let mut wc = match open_core(&wb, Some(kp.clone()), cache).await {
+    if !pre.is_empty() {
+        let mut old = match open_core(&wb, Some(key_pair(OTHER_KEY_SEED)), cache).await {
+            Ok(c) => c,
+            Err(e) => return (vec![format!("create earlier core: Err({e})")], env::empty_image(), None),
+        };
+        let mut n = 0u64;
+        for op in pre {
+            match op {
+                Op::Append(b) => {
+                    let _ = old.append(&b.bytes(n)).await;
+                    n += 1;
+                }
+                Op::BatchN(k) => {
+                    let d: Vec<Vec<u8>> = (0..*k as u64).map(|j| Blk::P(2, 5).bytes(n + j)).collect();
+                    let _ = old.append_batch(&d).await;
+                    n += *k as u64;
+                }
+                Op::Clear(s, e) => {
+                    let _ = old.clear(*s, *e).await;
+                }
+                _ => {}
+            }
+        }
+        drop(old);
+    }
+    let mut wc = match open_core_ow(&wb, Some(kp.clone()), cache, !pre.is_empty()).await {
         Ok(c) => Some(c),
         Err(e) => {
             t.push(format!("create writer: Err({e})"));
@@ -209,20 +242,24 @@ async fn run_config(hist: &[Op], kind: BackendKind, cache: CacheCfg) -> (Vec<Str
                 }
             }
             Op::RSync(req) | Op::RBad(req, _) => {
-                if let (Some(w), Some(r)) = (wc.as_mut(), rc.as_mut()) {
-                    let rl = r.info().length;
-                    let block = match req.block {
-                        Some(i) => Some(hypercore::RequestBlock { index: i, nodes: r.missing_nodes(i).await.unwrap_or(0) }),
-                        None => None,
+                if wc.is_some() && rc.is_some() {
+                    let (block, hash, seek, up) = {
+                        let r = rc.as_mut().unwrap();
+                        let rl = r.info().length;
+                        let block = match req.block {
+                            Some(i) => Some(hypercore::RequestBlock { index: i, nodes: r.missing_nodes(i).await.unwrap_or(0) }),
+                            None => None,
+                        };
+                        let hash = match req.hash {
+                            Some(j) => Some(hypercore::RequestBlock { index: j, nodes: r.missing_nodes_from_merkle_tree_index(j).await.unwrap_or(0) }),
+                            None => None,
+                        };
+                        let seek = req.seek.map(|b| hypercore::RequestSeek { bytes: b });
+                        let up = req.up.map(|to| hypercore::RequestUpgrade { start: rl, length: to - rl });
+                        (block, hash, seek, up)
                     };
-                    let hash = match req.hash {
-                        Some(j) => Some(hypercore::RequestBlock { index: j, nodes: r.missing_nodes_from_merkle_tree_index(j).await.unwrap_or(0) }),
-                        None => None,
-                    };
-                    let seek = req.seek.map(|b| hypercore::RequestSeek { bytes: b });
-                    let up = req.up.map(|to| hypercore::RequestUpgrade { start: rl, length: to - rl });
                     t.push(format!("request {:?} {:?} {:?} {:?}", block, hash, seek, up));
-                    match w.create_proof(block, hash, seek, up).await {
+                    match wc.as_mut().unwrap().create_proof(block, hash, seek, up).await {
                         Ok(Some(p)) => {
                             t.push(format!("proof fp {:x}", env::fp128(&[format!("{p:?}").as_bytes()])));
                             // RBad: a corrupted version of the honest proof (must be refused
@@ -234,8 +271,17 @@ async fn run_config(hist: &[Op], kind: BackendKind, cache: CacheCfg) -> (Vec<Str
                                 },
                                 _ => p,
                             };
-                            let r2 = r.verify_and_apply_proof(&p).await;
-                            t.push(format!("apply {:?}", r2.map_err(|e| format!("{e}"))));
+                            if cold {
+                                rc = None;
+                                match open_core(rb.as_ref().unwrap(), None, cache).await {
+                                    Ok(c) => rc = Some(c),
+                                    Err(e) => t.push(format!("r.reopen before apply: Err({e})")),
+                                }
+                            }
+                            if let Some(r) = rc.as_mut() {
+                                let r2 = r.verify_and_apply_proof(&p).await;
+                                t.push(format!("apply {:?}", r2.map_err(|e| format!("{e}"))));
+                            }
                         }
                         Ok(None) => t.push("proof None".into()),
                         Err(e) => t.push(format!("proof Err({e})")),
@@ -293,32 +339,69 @@ async fn run_config(hist: &[Op], kind: BackendKind, cache: CacheCfg) -> (Vec<Str
 const KINDS: [BackendKind; 3] = [BackendKind::Journal, BackendKind::Memory, BackendKind::Disk];
 const CACHES: [CacheCfg; 3] = [CacheCfg::Off, CacheCfg::Default, CacheCfg::Tiny];
 
-fn check_history(rt: &tokio::runtime::Runtime, hist: &[Op], journal_only: bool, rep: &Report, stats: &Stats, distinct: &FpSet) {
-    crate::sup::set_case(&json!({"prop": "C14", "what": "configs", "hist": hist, "journal_only": journal_only}).to_string());
+#[derive(Clone)]
+pub struct HistCase {
+    pub hist: Vec<Op>,
+    pub journal_only: bool,
+    pub pre: Vec<Op>,
+    pub cold: bool,
+}
+
+impl HistCase {
+    fn plain(hist: Vec<Op>, journal_only: bool) -> HistCase {
+        HistCase { hist, journal_only, pre: vec![], cold: false }
+    }
+    fn json(&self) -> Value {
+        json!({"prop": "C14", "what": "configs", "hist": self.hist, "journal_only": self.journal_only, "pre": self.pre, "cold": self.cold})
+    }
+}
+
+fn check_history(rt: &tokio::runtime::Runtime, hc: &HistCase, rep: &Report, stats: &Stats, distinct: &FpSet) {
+    let hist = &hc.hist[..];
+    crate::sup::set_case(&hc.json().to_string());
+    let run = |kind: BackendKind, cache: CacheCfg, pre: &[Op]| -> (Vec<String>, Image, Option<Image>) {
+        stats.add("config_runs", 1);
+        match crate::drv::guard_sync(|| rt.block_on(run_config(hist, kind, cache, pre, hc.cold))) {
+            Out::Ok(r) => r,
+            Out::Panic(p) => (vec![format!("PANIC {p}")], env::empty_image(), None),
+            Out::Err(e) => (vec![format!("ERR {e}")], env::empty_image(), None),
+        }
+    };
     let mut base: Option<(Vec<String>, Image, Option<Image>)> = None;
+    if !hc.pre.is_empty() {
+        // reference: the same history on fresh storage
+        let b = run(BackendKind::Journal, CacheCfg::Off, &[]);
+        distinct.insert(env::fp128(&[format!("{:?}", b.0).as_bytes()]));
+        base = Some(b);
+    }
     for kind in KINDS {
-        if journal_only && kind != BackendKind::Journal {
+        if hc.journal_only && kind != BackendKind::Journal {
             continue;
         }
         for cache in CACHES {
-            stats.add("config_runs", 1);
-            let res = match crate::drv::guard_sync(|| rt.block_on(run_config(hist, kind, cache))) {
-                Out::Ok(r) => r,
-                Out::Panic(p) => (vec![format!("PANIC {p}")], env::empty_image(), None),
-                Out::Err(e) => (vec![format!("ERR {e}")], env::empty_image(), None),
-            };
+            if !hc.pre.is_empty() && cache != CacheCfg::Off {
+                continue;
+            }
+            let res = run(kind, cache, &hc.pre);
+            if std::env::var("HCVERIF_DEBUG_C14").is_ok() {
+                eprintln!("--- {kind:?} {cache:?}");
+                for l in &res.0 {
+                    eprintln!("  {l}");
+                }
+            }
             match &base {
                 None => {
                     distinct.insert(env::fp128(&[format!("{:?}", res.0).as_bytes()]));
                     base = Some(res);
                 }
                 Some(b) => {
+                    let refname = if hc.pre.is_empty() { "journal/cache-off" } else { "fresh storage" };
                     let mut viol: Option<(String, String)> = None;
                     if b.0 != res.0 {
                         let at = b.0.iter().zip(res.0.iter()).position(|(x, y)| x != y).unwrap_or(b.0.len().min(res.0.len()));
                         viol = Some((
                             "observations-differ".into(),
-                            format!("transcript line {at}: journal/cache-off says [{}], {kind:?}/{cache:?} says [{}]", b.0.get(at).cloned().unwrap_or_default(), res.0.get(at).cloned().unwrap_or_default()),
+                            format!("transcript line {at}: {refname} says [{}], {kind:?}/{cache:?} says [{}]", b.0.get(at).cloned().unwrap_or_default(), res.0.get(at).cloned().unwrap_or_default()),
                         ));
                     } else {
                         for (which, x, y) in [("writer", Some(&b.1), Some(&res.1)), ("replica", b.2.as_ref(), res.2.as_ref())] {
@@ -328,7 +411,7 @@ fn check_history(rt: &tokio::runtime::Runtime, hist: &[Op], journal_only: bool, 
                                     let at = x[f].iter().zip(y[f].iter()).position(|(p, q)| p != q).unwrap_or(x[f].len().min(y[f].len()));
                                     viol = Some((
                                         "bytes-differ".into(),
-                                        format!("{which} {} file: journal/cache-off has {} bytes, {kind:?}/{cache:?} has {} bytes, first difference at byte {at}", env::STORE_NAMES[f], x[f].len(), y[f].len()),
+                                        format!("{which} {} file: {refname} has {} bytes, {kind:?}/{cache:?} has {} bytes, first difference at byte {at}", env::STORE_NAMES[f], x[f].len(), y[f].len()),
                                     ));
                                 }
                             }
@@ -337,10 +420,12 @@ fn check_history(rt: &tokio::runtime::Runtime, hist: &[Op], journal_only: bool, 
                     if let Some((clause, detail)) = viol {
                         rep.violate(
                             &clause,
-                            format!("backend={kind:?} cache={cache:?} last={}", hist.last().map(|o| o.kind()).unwrap_or("-")),
-                            format!("history [{}]: {}", hist_brief(hist), detail),
-                            json!({"prop": "C14", "what": "configs", "hist": hist, "journal_only": journal_only}),
-                            hist.len(),
+                            format!("backend={kind:?} cache={cache:?} last={}{}{}", hist.last().map(|o| o.kind()).unwrap_or("-"), if hc.pre.is_empty() { "" } else { " overwrite" }, if hc.cold { " cold-apply" } else { "" }),
+                            format!("history [{}]{}{}: {}", hist_brief(hist),
+                                if hc.pre.is_empty() { String::new() } else { format!(" created with overwrite over the storage of an earlier core [{}]", hist_brief(&hc.pre)) },
+                                if hc.cold { " (replica reopened between request and apply)" } else { "" }, detail),
+                            hc.json(),
+                            hist.len() + hc.pre.len(),
                         );
                     }
                 }
@@ -385,7 +470,7 @@ pub fn run(tier: &str) -> i32 {
     let rep = Report::new("C14", tier, "exploration");
     let stats = Stats::default();
     let distinct = FpSet::default();
-    let mut hists: Vec<(Vec<Op>, bool)> = vec![];
+    let mut hists: Vec<HistCase> = vec![];
     let mut fams = vec![];
     // writer histories: small blocks, all clears
     let a1 = |m: &SysModel| -> Vec<Op> {
@@ -395,7 +480,7 @@ pub fn run(tier: &str) -> i32 {
     };
     let h1 = enumerate(if quick { 3 } else { 4 }, &[], false, &a1);
     fams.push(json!({"family": "medium alphabet", "histories": h1.len()}));
-    hists.extend(h1.into_iter().map(|h| (h, false)));
+    hists.extend(h1.into_iter().map(|h| HistCase::plain(h, false)));
     // big-block variants so that holes span whole filesystem blocks
     let a2 = |m: &SysModel| -> Vec<Op> {
         let len = m.w.len();
@@ -411,7 +496,7 @@ pub fn run(tier: &str) -> i32 {
     };
     let h2 = enumerate(if quick { 3 } else { 4 }, &[], false, &a2);
     fams.push(json!({"family": "big blocks (3 / 5000 / 20000 bytes) + clears + reopen", "histories": h2.len()}));
-    hists.extend(h2.into_iter().map(|h| (h, false)));
+    hists.extend(h2.into_iter().map(|h| HistCase::plain(h, false)));
     // a deeper reduced family and read-only switch
     let a3 = |m: &SysModel| -> Vec<Op> {
         let mut a = Alpha::small();
@@ -420,14 +505,14 @@ pub fn run(tier: &str) -> i32 {
     };
     let h3 = enumerate(if quick { 4 } else { 5 }, &[], false, &a3);
     fams.push(json!({"family": "small alphabet + make_read_only", "histories": h3.len()}));
-    hists.extend(h3.into_iter().map(|h| (h, false)));
+    hists.extend(h3.into_iter().map(|h| HistCase::plain(h, false)));
     // cache coherence only (instrumented backend x 3 cache settings): deeper, so that trees grow
     // beyond the tiny cache and nodes are evicted between the rounds of multi-round reads
     let a4 = |m: &SysModel| -> Vec<Op> { Alpha::small().ops(m) };
     let d4 = if quick { 7 } else { 9 };
     let h4 = enumerate(d4, &[], false, &a4);
     fams.push(json!({"family": "small alphabet, journal backend only x 3 cache settings", "depth": d4, "histories": h4.len()}));
-    hists.extend(h4.into_iter().map(|h| (h, true)));
+    hists.extend(h4.into_iter().map(|h| HistCase::plain(h, true)));
     let a5 = |m: &SysModel| -> Vec<Op> {
         let len = m.w.len();
         let mut v = vec![Op::Batch((0..5).map(|_| Blk::P(2, 6)).collect()), Op::Append(Blk::P(1, 6))];
@@ -442,13 +527,13 @@ pub fn run(tier: &str) -> i32 {
     let d5 = if quick { 5 } else { 7 };
     let h5 = enumerate(d5, &[], false, &a5);
     fams.push(json!({"family": "batches of 5 / clears in the middle and at the end / reopen, journal backend only x 3 cache settings", "depth": d5, "histories": h5.len()}));
-    hists.extend(h5.into_iter().map(|h| (h, true)));
+    hists.extend(h5.into_iter().map(|h| HistCase::plain(h, true)));
     // replica histories
     let ar = |m: &SysModel| -> Vec<Op> { replica_ops(m, false) };
     for (n, d) in if quick { vec![(3u64, 3usize), (5, 2)] } else { vec![(3, 4), (5, 3), (6, 3)] } {
         let hr = enumerate(d, &super::c03::shape(n, 0, None), true, &ar);
         fams.push(json!({"family": format!("replica of {n}: well-formed request orders"), "depth": d, "histories": hr.len()}));
-        hists.extend(hr.clone().into_iter().map(|h| (h, false)));
+        hists.extend(hr.clone().into_iter().map(|h| HistCase::plain(h, false)));
     }
     // replica histories with writer growth, hash requests, replica clears and reopen (cache
     // coherence on the replica side: nodes looked up while missing and received later)
@@ -469,9 +554,46 @@ pub fn run(tier: &str) -> i32 {
     let dg = if quick { 5 } else { 6 };
     let hg = enumerate(dg, &super::c03::shape(2, 0, None), true, &ag);
     fams.push(json!({"family": "replica of 2 growing to 5 (journal backend only x 3 cache settings)", "depth": dg, "histories": hg.len()}));
-    hists.extend(hg.into_iter().map(|h| (h, true)));
+    hists.extend(hg.into_iter().map(|h| HistCase::plain(h, true)));
+    // answers in flight across a restart: the replica is reopened between request and apply
+    // (the node cache is empty when the proof arrives)
+    let agc = |m: &SysModel| -> Vec<Op> {
+        let mut v = super::faults::replica_ops_growth(m, 5);
+        let bad: Vec<Op> = v
+            .iter()
+            .filter_map(|o| match o {
+                Op::RSync(r) if r.up.is_none() => Some(Op::RBad(r.clone(), 0)),
+                _ => None,
+            })
+            .collect();
+        v.extend(bad);
+        v
+    };
+    let dc = if quick { 4 } else { 5 };
+    let hcold = enumerate(dc, &super::c03::shape(2, 0, None), true, &agc);
+    fams.push(json!({"family": "replica of 2 growing to 5, replica reopened between every request and its apply (journal backend only x 3 cache settings)", "depth": dc, "histories": hcold.len()}));
+    hists.extend(hcold.into_iter().map(|h| HistCase { hist: h, journal_only: true, pre: vec![], cold: true }));
+    let hcold5 = enumerate(if quick { 2 } else { 3 }, &[super::c03::shape(5, 0, None), vec![Op::RSync(crate::drv::Req { block: Some(0), up: Some(5), ..Default::default() })]].concat(), true, &agc);
+    fams.push(json!({"family": "replica of 5 holding block 0, cold applies", "histories": hcold5.len()}));
+    hists.extend(hcold5.into_iter().map(|h| HistCase { hist: h, journal_only: true, pre: vec![], cold: true }));
+    // creation with overwrite over storage that held an earlier core (another key pair) must
+    // behave and end byte-identical to creation on fresh storage, on all three backends
+    let pres: Vec<Vec<Op>> = vec![
+        vec![Op::Append(Blk::P(3, 5))],
+        vec![Op::BatchN(5), Op::Clear(1, 3)],
+        vec![Op::BatchN(40), Op::Append(Blk::P(3, 5)), Op::Append(Blk::P(3, 5))],
+    ];
+    let how = enumerate(if quick { 2 } else { 3 }, &[], false, &a1);
+    let mut now_ = 0;
+    for pre in &pres {
+        for h in &how {
+            hists.push(HistCase { hist: h.clone(), journal_only: false, pre: pre.clone(), cold: false });
+            now_ += 1;
+        }
+    }
+    fams.push(json!({"family": "medium alphabet on a core created with overwrite over the storage of an earlier core (3 earlier cores x 3 backends, compared with fresh storage)", "histories": now_}));
     if !quick {
-        hists.push((vec![Op::BatchN(9000), Op::Clear(100, 8200), Op::Reopen, Op::Append(Blk::P(70000, 1)), Op::Clear(9000, 9001), Op::Reopen], false));
+        hists.push(HistCase::plain(vec![Op::BatchN(9000), Op::Clear(100, 8200), Op::Reopen, Op::Append(Blk::P(70000, 1)), Op::Clear(9000, 9001), Op::Reopen], false));
     }
     let idx = AtomicUsize::new(0);
     let hists_ref = &hists;
@@ -485,7 +607,7 @@ pub fn run(tier: &str) -> i32 {
                         crate::sup::clear_case();
                         break;
                     }
-                    check_history(&rt, &hists_ref[i].0, hists_ref[i].1, &rep, &stats, &distinct);
+                    check_history(&rt, &hists_ref[i], &rep, &stats, &distinct);
                 }
             });
         }
@@ -494,11 +616,11 @@ pub fn run(tier: &str) -> i32 {
     let coverage = json!({
         "evaluations": stats.get("config_runs"),
         "distinct_nontrivial": distinct.len(),
-        "rule": "every history of the listed families is executed under 3 backends (JournalStore, RandomAccessMemory, RandomAccessDisk on tmpfs) x 3 cache settings (off, default, max_capacity 200); the transcript of every call result plus info/has/get after every call, and the full contents of the four files (read back, so punched holes read as zeros) must be identical in all nine runs; distinct_nontrivial = distinct transcripts",
+        "rule": "every history of the listed families is executed under 3 backends (JournalStore, RandomAccessMemory, RandomAccessDisk on tmpfs) x 3 cache settings (off, default, max_capacity 200); the transcript of every call result plus info/has/get after every call, and the full contents of the four files (read back, so punched holes read as zeros) must be identical in all nine runs; cold-apply families reopen the replica between each request and the apply of its answer; overwrite families create the core with overwrite = true over storage left by an earlier core with another key and compare with fresh storage; distinct_nontrivial = distinct transcripts",
         "histories": stats.get("histories"),
         "families": fams,
         "build_variant": if variant.is_empty() { "default features (sparse)".to_string() } else { variant.clone() },
-        "samples": hists.iter().step_by(hists.len() / 4 + 1).map(|h| hist_brief(&h.0)).collect::<Vec<_>>(),
+        "samples": hists.iter().step_by(hists.len() / 4 + 1).map(|h| hist_brief(&h.hist)).collect::<Vec<_>>(),
         "exhaustive": true,
     });
     rep.finish(coverage, vec!["disk files live on tmpfs (/dev/shm) or under /verif/run".into()])
@@ -509,6 +631,12 @@ pub fn replay(case: &Value, rep: &Report) {
     let stats = Stats::default();
     let d = FpSet::default();
     let rt = tokio::runtime::Builder::new_current_thread().build().expect("tokio runtime");
-    check_history(&rt, &hist, case["journal_only"].as_bool().unwrap_or(false), rep, &stats, &d);
+    let hc = HistCase {
+        hist,
+        journal_only: case["journal_only"].as_bool().unwrap_or(false),
+        pre: serde_json::from_value(case["pre"].clone()).unwrap_or_default(),
+        cold: case["cold"].as_bool().unwrap_or(false),
+    };
+    check_history(&rt, &hc, rep, &stats, &d);
     let _ = std::fs::remove_dir_all(scratch_root());
 }
